@@ -77,6 +77,13 @@ Theorem C05_terminates : forall E t bs st,
   wf_env E = true -> wf_ty E t = true -> exists f, decodeA f E t bs st <> Fuel.
 Proof. exact decodeA_terminates. Qed.
 
+(* for EVERY type, zero-width element types included, fuel linear in the input plus 2^31 is
+   enough: the decoded count, a non-negative i32 (hence below 2^31), is the only thing that can
+   make a loop longer than the input (finding F14) *)
+Theorem C05_terminates_bound : forall E t bs st f,
+  (fuel_bound E t (length bs) + N.to_nat (2 ^ 31) <= f)%nat -> decodeA f E t bs st <> Fuel.
+Proof. intros E t bs st f Hf. apply decodeA_terminates_bound. rewrite big_eq. exact Hf. Qed.
+
 Example C05_zero_width_spins :
   dec a_ops 1000 [] (TSeq KVec (TPrim PUnit)) (mkA [254; 255; 255; 255; 15] [] []) = Fuel.
 Proof. exact zero_width_needs_count_many_steps. Qed.
@@ -111,3 +118,4 @@ Print Assumptions C05_fuel_monotone.
 Print Assumptions C05_terminates_prompt.
 Print Assumptions C05_progress.
 Print Assumptions C05_terminates.
+Print Assumptions C05_terminates_bound.
